@@ -59,8 +59,9 @@ func (wrapper EpochsHooksWrapper) AfterEpochEnd(
 					power, err := wrapper.keeper.operatorKeeper.GetOperatorOptedUSDValue(ctx, avsAddr, res.OperatorAddress)
 					if err != nil || power.ActiveUSDValue.IsNegative() {
 						ctx.Logger().Error("Failed to update task result statistics,GetOperatorOptedUSDValue call failed!", "task result", taskAddr, "error", err)
-						// Handle the error gracefully, continue to the next
-						// continue
+						// Handle the error gracefully, continue to the next result: the returned
+						// value is empty when there is an error, and adding it would panic
+						continue
 					}
 
 					operatorSelfPower := &types.OperatorActivePowerInfo{
@@ -74,8 +75,9 @@ func (wrapper EpochsHooksWrapper) AfterEpochEnd(
 			taskInfo, err := wrapper.keeper.GetTaskInfo(ctx, strconv.FormatUint(taskID, 10), taskAddr)
 			if err != nil {
 				ctx.Logger().Error("Failed to update task result statistics,GetTaskInfo call failed!", "task result", taskAddr, "error", err)
-				// Handle the error gracefully, continue to the next
-				// continue
+				// Handle the error gracefully, continue to the next group: taskInfo is nil here,
+				// e.g. when no result of the group carries a signature
+				continue
 			}
 			diff := types.Difference(taskInfo.OptInOperators, signedOperatorList)
 			taskInfo.SignedOperators = signedOperatorList
@@ -84,10 +86,14 @@ func (wrapper EpochsHooksWrapper) AfterEpochEnd(
 			// Calculate actual threshold
 			taskPowerTotal, err := wrapper.keeper.operatorKeeper.GetAVSUSDValue(ctx, avsAddr)
 
-			if err != nil || taskPowerTotal.IsZero() || operatorPowerTotal.IsZero() {
+			if err != nil {
 				ctx.Logger().Error("Failed to update task result statistics,GetAVSUSDValue call failed!", "task result", taskAddr, "error", err)
-				// Handle the error gracefully, continue to the next
-				// continue
+				// Handle the error gracefully, continue to the next group: the returned value is empty
+				// here, e.g. when the AVS has changed its task address or has been deregistered
+				continue
+			}
+			if taskPowerTotal.IsZero() || operatorPowerTotal.IsZero() {
+				ctx.Logger().Error("Failed to update task result statistics,the voting power is zero!", "task result", taskAddr)
 			}
 			taskInfo.TaskTotalPower = taskPowerTotal
 
